@@ -113,7 +113,7 @@ impl Session {
         Session {
             rt: Runtime::default(),
             quantum: 5000,
-            budget: 3_000_000,
+            budget: 400_000,
             dead: false,
             steps: 0,
         }
@@ -184,6 +184,10 @@ impl Session {
                     );
                     out.push(ev);
                     if stop {
+                        return out;
+                    }
+                    if out.len() > 100_000 {
+                        out.push(Ev::Budget);
                         return out;
                     }
                 }
